@@ -125,9 +125,17 @@ parsec_info_id_t parsec_info_unregister(parsec_info_t *nfo, parsec_info_id_t iid
                     item2 != PARSEC_LIST_ITERATOR_END(&nfo->ioa_list);
                     item2 = PARSEC_LIST_ITERATOR_NEXT(item2)) {
                     ioa = (parsec_info_object_array_t*)item2;
-                    if(iid < ioa->known_infos && NULL != ioa->info_objects[iid]) {
-                        ie->destructor(ioa->info_objects[iid], ie->des_data);
+                    /* info_objects can be reallocated by a concurrent set/get on a
+                     * larger id: look at it under the array's lock */
+                    void *obj = NULL;
+                    parsec_atomic_rwlock_wrlock(&ioa->rw_lock);
+                    if(iid < ioa->known_infos) {
+                        obj = ioa->info_objects[iid];
                         ioa->info_objects[iid] = NULL;
+                    }
+                    parsec_atomic_rwlock_wrunlock(&ioa->rw_lock);
+                    if(NULL != obj) {
+                        ie->destructor(obj, ie->des_data);
                     }
                 }
                 parsec_list_unlock(&nfo->ioa_list);
